@@ -4,6 +4,7 @@ import (
 	"flag"
 	"fmt"
 	"math/rand"
+	"strings"
 
 	"github.com/bobertlo/gmars"
 )
@@ -55,7 +56,7 @@ func cmdRot(args []string) {
 				w.line(l)
 			}
 			if a != nil && bb != nil {
-				w.line(fmt.Sprintf(`{"ev":"rot","k":%d,"j":%d,"a":%s,"b":%s,"aflags":%s,"bflags":%s}`, k, j, a.fullState(), bb.fullState(), aliveJSON(a), aliveJSON(bb)))
+				w.line(rotEvent(cfg, ws, offs, k, j, a, bb))
 				pairs++
 			}
 		}
@@ -63,6 +64,54 @@ func cmdRot(args []string) {
 	}
 	w.close()
 	fmt.Printf(`{"battles":%d,"events":%d,"cycles":%d,"pairs":%d,"wrapped_loads":%d,"offsets_beyond_core":%d,"panics":%d}`+"\n", st.battles, st.events, st.cycles, pairs, wrapped, bigoff, st.panics)
+}
+
+func rotEvent(cfg simCfg, ws []wdata, offs []int, k, j int, a, bb *battle) string {
+	var wj []string
+	for _, w := range ws {
+		wj = append(wj, fmt.Sprintf(`{"code":%s,"start":%d}`, insListJSON(w.code), w.start))
+	}
+	return fmt.Sprintf(`{"ev":"rot","k":%d,"j":%d,"a":%s,"b":%s,"aflags":%s,"bflags":%s,"cfg":{"M":%d,"P":%d,"C":%d,"RL":%d,"WL":%d},"ws":[%s],"offs":%s}`,
+		k, j, a.fullState(), bb.fullState(), aliveJSON(a), aliveJSON(bb), cfg.M, cfg.P, cfg.C, cfg.RL, cfg.WL, strings.Join(wj, ","), intsJSON(offs))
+}
+
+// "rot-replay": re-run both battles of recorded rot events from their inputs
+func cmdRotReplay(args []string) {
+	fs := flag.NewFlagSet("rot-replay", flag.ExitOnError)
+	in := fs.String("in", "", "ndjson with rot events")
+	out := fs.String("out", "", "prefix")
+	fs.Parse(args)
+	w := newShardWriter(*out, 1)
+	r := rand.New(rand.NewSource(1))
+	st := &battleStats{}
+	for _, e := range readNDJSON(*in) {
+		if e["ev"] != "rot" {
+			continue
+		}
+		c := e["cfg"].(map[string]interface{})
+		cfg := simCfg{jint(c["M"]), jint(c["P"]), jint(c["C"]), jint(c["RL"]), jint(c["WL"])}
+		var ws []wdata
+		for _, x := range e["ws"].([]interface{}) {
+			m := x.(map[string]interface{})
+			ws = append(ws, wdata{jinsList(m["code"]), jint(m["start"])})
+		}
+		offs := jints(e["offs"])
+		k, j := jint(e["k"]), jint(e["j"])
+		a, la := runRecorded(r, cfg, ws, offs, st)
+		o2 := make([]int, len(offs))
+		for i := range offs {
+			o2[i] = (offs[i]+k)%cfg.M + j*cfg.M
+		}
+		bb, lb := runRecorded(r, cfg, ws, o2, st)
+		for _, l := range append(la, lb...) {
+			w.line(l)
+		}
+		if a != nil && bb != nil {
+			w.line(rotEvent(cfg, ws, offs, k, j, a, bb))
+		}
+	}
+	w.close()
+	fmt.Println(`{"replayed":1}`)
 }
 
 func aliveJSON(b *battle) string {
@@ -122,8 +171,11 @@ func cmdConfigs(args []string) {
 	st := &battleStats{}
 	pick := func(m int) int {
 		c := []int{0, 1, 2, 3, m - 1, m, m + 1, 1 << 20}
-		if r.Intn(4) == 0 {
+		switch r.Intn(6) {
+		case 0:
 			return r.Intn(1<<20 + 1)
+		case 1, 2: // plausible values, so that many configurations are accepted and battles run under them
+			return 1 + r.Intn(m+2)
 		}
 		v := c[r.Intn(len(c))]
 		if v < 0 {
@@ -142,6 +194,10 @@ func cmdConfigs(args []string) {
 		c := gmars.SimulatorConfig{Mode: gmars.SimulatorMode(r.Intn(3)), CoreSize: gmars.Address(m), Processes: gmars.Address(pick(m)),
 			Cycles: gmars.Address(pick(m)), ReadLimit: gmars.Address(pick(m)), WriteLimit: gmars.Address(pick(m)),
 			Length: gmars.Address(pick(m)), Distance: gmars.Address(pick(m))}
+		if r.Intn(2) == 0 && m >= 3 {
+			c.Length = gmars.Address(r.Intn(m + 1))
+			c.Distance = gmars.Address(r.Intn(m - int(c.Length) + 1))
+		}
 		okv, msg := 1, ""
 		var sim gmars.ReportingSimulator
 		func() {
